@@ -18,7 +18,9 @@ def run():
         macfam.COMMON_ASSUMPTIONS + ["a panic or an exhausted draw budget (>10000 draws in one call) is an event no specification action matches, except the listed open finding",
                                      "certification build: CertTrace.tla states only robustness and counter clauses (what each TS009 command should do is outside the listed properties)"],
         # the device built with its certification-protocol handler (non-default cargo feature), under CertTrace.tla
-        extra=[macfam.certification(PID)])
+        extra=[macfam.certification(PID)],
+        # design level: under weak fairness of the procedure's own steps every receive procedure returns to the caller
+        mc=[("MCFront.tla", "MCFrontLive.cfg", {"workers": 4})])
 
 def replay(path):
     return macfam.replay(PID, path)
